@@ -235,6 +235,19 @@ CHECKS = {
         technique="TLA+ reference semantics enumerated by TLC + replay of every behaviour into the public pipeline classes",
         engine="tlc-gen+trace",
     ),
+    "C18": dict(
+        category="exploration",
+        text="For each of the rule-detected find-and-fix codemods (those whose detector is a semgrep rule of their own): pinned seeds "
+        "under the Variants.tla feature vectors (nesting, layout, line endings); each project is run for real and once more with "
+        "--dry-run, so the findings the real detector hands to every file step are in the traces (flagged before / flagged after); "
+        "Compare events: every location flagged before lies in a rewritten region or the file is failed, nothing flagged after lies "
+        "in a rewritten region; all traces validated by Trace_Run.",
+        design_ref="DESIGN.md §5 C18",
+        note="The detector is codemodder's own semgrep run (trusted); only variants of seeds pinned in corpus/c18_pins.json are judged; "
+        "variations that re-bind names (a declined shape) are left out.",
+        technique="TLC-enumerated program variants run through the code and its own detector; TLC trace validation",
+        engine="tlc-gen+trace",
+    ),
 }
 
 NOT_APPLICABLE: list[dict] = []
